@@ -235,6 +235,9 @@ def _run_case(idx, c):
             sign_chain = cred(OTHER_KEY[kt])[0]          # ... or over another certificate
         dc_key, dc = make_dc(sign_chain, sign_key, sign_alg, dc_kt)
         if site == "dcsig":
+            if cls == "degenerate":
+                r_, s_ = [(1, 0), (0, 0), (0, 1), (1, 1)][c.get("var", 0) % 4]
+                dc.signature = bytearray(bytes([0x30, 6, 2, 1, r_, 2, 1, s_]))
             if cls in ("bitflip", "empty", "trunc", "extend"):
                 corrupt_sig(dc, cls, c.get("var", 0))
             elif cls == "declother":
@@ -253,6 +256,9 @@ def _run_case(idx, c):
         b["skw"]["dc_key"] = dc_key
         b["skw"]["del_cred"] = dc
         b["ckw"]["settings"].dc_sig_algs = dc_algs
+        if cls == "misplaced":
+            # a plain Certificate message (a CompressedCertificate is serialised when it is created)
+            b["ckw"]["settings"].certificate_compression_receive = []
     restore = None
     if site == "srp" and cls == "degenerate":
         # the client does not know the password; it sends A = k*N and derives its keys from the premaster that
@@ -325,6 +331,15 @@ def _run_case(idx, c):
                 ext.binders[0] = bd
                 state["hit"] += 1
             return
+        if site == "dcsig" and cls == "misplaced" and ht == HandshakeType.certificate and getattr(msg, "certificate_list", None):
+            # [someone else's certificate, the signer's certificate carrying its delegated credential]
+            from tlslite.messages import CertificateEntry
+            from tlslite.constants import CertificateType
+            victim = cred("p384" if kt != "p384" else "ecdsa")[0].x509List[0]
+            first = CertificateEntry(CertificateType.x509).create(victim, [])
+            msg.certificate_list = [first] + list(msg.certificate_list)
+            state["hit"] += 1
+            return
         if ht != target:
             return
         if site in ("fin", "phafin") and cls == "wrongsecret":
@@ -334,6 +349,15 @@ def _run_case(idx, c):
             state["hit"] += 1
         elif cls in ("bitflip", "empty", "trunc", "extend") and hasattr(msg, "signature"):
             corrupt_sig(msg, cls, c.get("var", 0))
+            state["hit"] += 1
+        elif cls == "degenerate" and hasattr(msg, "signature"):
+            # (r, s) pairs that satisfy a sloppy verifier whatever the key and the message are
+            r_, s_ = [(1, 0), (0, 0), (0, 1), (1, 1)][c.get("var", 0) % 4]
+
+            def _int(n):
+                return bytes([2, 1, n])
+            body = _int(r_) + _int(s_)
+            msg.signature = bytearray(bytes([0x30, len(body)]) + body)
             state["hit"] += 1
         elif cls == "declother":
             if decl_other(msg):
